@@ -29,6 +29,9 @@ SCOPE = 'supp/scope.py'
 
 
 def run(repo, res):
+    _ns, _np = R.shape_stats(repo)
+    res.extra['e1_shapes_interpreted'] = _ns
+    res.extra['e1_shape_paths_interpreted'] = _np
     brecs = R.binder_records(repo)
     n1 = n3 = 0
     for (cls, kind, path), r in sorted(brecs.items()):
